@@ -451,11 +451,13 @@ class FactoryOracle:
             prev_out = None
             if u.k > 0:
                 prev_out = L.units[u.k - 1].t_out
-            lo = u.t_gather + d
             hi = max(u.t_gather, prev_out if prev_out is not None else u.t_gather) + d
-            if now < lo - tol(lo) or now > hi + tol(hi):
-                self.mon.violation("C08", "offer_time", "combiner:pallet-offered-outside-[gather+delay, max(gather,worker-free)+delay]",
-                                   {"node": L.id, "t_gather": u.t_gather, "prev_out": prev_out, "delay": d, "offered": now})
+            if abs(now - hi) > tol(hi):
+                # the combiner has one worker: processing of the next pallet starts when the ingredients are complete
+                # AND the previous pallet has left (otherwise it would hold two units of work)
+                self.mon.violation("C08", "offer_time", "combiner:pallet-offered-at-other-than-max(gather-complete,previous-pallet-left)+delay" +
+                                   (":processed-while-previous-pallet-still-held" if now < hi else ""),
+                                   {"node": L.id, "t_gather": u.t_gather, "prev_out": prev_out, "delay": d, "offered": now, "expected": hi})
 
     # ------------------------------------------------------------------ counters
     def on_counter(self, L, key, old, new):
@@ -803,11 +805,23 @@ class FactoryOracle:
                 if b is not None:
                     L.fa_checks += 1
                     mon.counters["c15_fa_out_checks"] += 1
+                    flagged = False
                     for j, rec in b[1]:
                         if j is not None and idx is not None and j < idx and rec.t_grant is not None:
                             mon.violation("C15", "first_available_out", f"{L.type}:FIRST_AVAILABLE-pushed-on-a-higher-index-edge-although-a-lower-one-was-granted",
                                           {"node": L.id, "used": idx, "lower_granted": j, "item": sx.iid})
+                            flagged = True
                             break
+                    if not flagged and idx is not None:
+                        outs = node.out_edges or []
+                        for j in range(min(idx, len(outs))):
+                            e = outs[j]
+                            if hasattr(e, "belt"):
+                                continue
+                            if self._free(e) <= 0 and self._free_live(e) > 0:
+                                mon.violation("C15", "first_available_out", f"{L.type}:FIRST_AVAILABLE-pushed-on-a-higher-index-edge-although-a-lower-one-had-room:slot-held-by-orphan-reservation",
+                                              {"node": L.id, "used": idx, "lower_with_room": j, "item": sx.iid})
+                                break
             else:
                 if sx.can_log:
                     L.fa_checks += 1
@@ -922,6 +936,9 @@ class FactoryOracle:
         return refs
 
     def _suspect(self, key, now, prop, check, mech, detail):
+        if prop == "C18" and check in ("generated_counter", "discarded_counter", "received_counter"):
+            # the same mismatch breaks the identity generated = in edges + in nodes + packed + discarded + received (C03)
+            self._suspect(("c03",) + tuple(key), now, "C03", "sum_identity_" + check, mech + ":breaks-the-conservation-identity", detail)
         """persistence margin for 'must have happened by now' checks (DESIGN section 6)"""
         t0 = self.suspects.get(key)
         self._live.add(key)
@@ -1404,6 +1421,19 @@ class FactoryOracle:
             if rep is None or abs(rep - exp) > 1e-6 * max(1.0, exp):
                 mon.violation("C18", "edge_time_average", f"{t.split('_')[0]}:time-averaged-occupancy!=integral-of-true-occupancy/T",
                               {"edge": eid, "reported": rep, "expected": exp, "T": T, "changes": sh.occ_changes})
+                continue
+            # finalising again at the same T must give the same average
+            try:
+                mon.suppress = True
+                getattr(edge, {"b": "update_final_buffer_avg_content", "f": "update_final_fleet_avg_content"}.get(t[0], "update_final_conveyor_avg_content"))(T)
+            except Exception:
+                continue
+            finally:
+                mon.suppress = False
+            rep2 = edge.stats.get(key)
+            if rep2 is None or abs(rep2 - exp) > 1e-6 * max(1.0, exp):
+                mon.violation("C18", "edge_time_average_refinalised", f"{t.split('_')[0]}:time-averaged-occupancy-changes-when-finalised-again-at-the-same-T",
+                              {"edge": eid, "first": rep, "second": rep2, "expected": exp, "T": T})
 
     def _finish_sinks(self):
         mon = self.mon
